@@ -138,6 +138,9 @@ def gen_plan(seed, index, tier):
         "yform": rng.choice(["nd", "nd", "list", "series"]), "gform": rng.choice(["nd", "nd", "list", "series"]),
         "scramble_index": rng.random() < 0.4,
     }
+    # ambient process state: another caller fitted an independent estimator (own moment, own learner) on a
+    # row-permuted copy of the same data earlier in this process
+    plan["twin_perm"] = rng.sample(range(len(rows)), len(rows)) if (index >= 40 and rng.random() < 0.2) else None
     # history: an earlier fit of the same estimator object on the same X with other labels/groups
     plan["prior_rows"] = derive_rows(rng, rows) if (index >= 40 and rng.random() < 0.2) else None
     if index >= 40 and rng.random() < 0.05:
@@ -148,7 +151,7 @@ def gen_plan(seed, index, tier):
             rows[0] = (1 - rows[0][0], rows[0][1], rows[0][2])
         rng.shuffle(rows)
         plan.update(rows=rows, moment=rng.choice(["DP", "DP", "EO", "ERP"]), bound_kind="diff", ratio=1.0, lp=True,
-                    max_iter=rng.choice([3, 5, 7, 10]), prior_rows=None, aligned=True)
+                    max_iter=rng.choice([3, 5, 7, 10]), prior_rows=None, twin_perm=None, aligned=True)
     return plan
 
 
@@ -202,6 +205,16 @@ def fit_once(plan, ctx, stall=False):
     ctx.ties.pos = 0
     ctx.clock.dl.pos = 0
     ctx.clock.force_stall = stall
+    if plan.get("twin_perm") and len(plan["twin_perm"]) == len(rows):
+        pr = [rows[i] for i in plan["twin_perm"]]
+        twin = ExponentiatedGradient(seams.ExactClassifier(col=0, log_payload=False),
+                                     make_moment(plan["moment"], plan["bound_kind"], plan["bound"], plan["ratio"]),
+                                     eps=plan["eps"], max_iter=2, nu=plan["nu"], eta0=plan["eta0"], run_linprog_step=plan["lp"])
+        with ctx.clock_installed():
+            ctx.call(twin.fit, pd.DataFrame({"x": [float(r[0]) for r in pr]}), np.array([r[2] for r in pr]),
+                     sensitive_features=np.array([f"g{r[1]}" for r in pr]))
+        ctx.fault("interleaved_second_instance")
+        ctx.ties.pos = 0
     if plan.get("prior_rows"):
         pr = plan["prior_rows"]
         with ctx.clock_installed():
@@ -345,6 +358,8 @@ def shrink_candidates(plan):
     rows = p["rows"]
     if p.get("prior_rows"):
         yield mod(prior_rows=None)
+    if p.get("twin_perm"):
+        yield mod(twin_perm=None)
     if p.get("clock"):
         yield mod(clock=[])
     if p.get("stall_rerun"):
@@ -352,7 +367,7 @@ def shrink_candidates(plan):
     if any(p["ties"]):
         yield mod(ties=[])
     n = len(rows)
-    if p.get("prior_rows"):
+    if p.get("prior_rows") or p.get("twin_perm"):
         n = 0  # keep the two row lists aligned: do not drop rows while an earlier fit is part of the plan
     # drop chunks of rows, then single rows
     for size in (n // 2, n // 4, 2, 1):
